@@ -35,11 +35,11 @@ def main():
             other = sorted(p for p, c in checks.items() if c['rc'] not in (0, 1))
             tests_ok = e.get('tests', '').startswith('846 passed')
             confirmed = tests_ok and (e.get('demo_mutant') in (1, None)) and (e.get('demo_clean') in (0, None))
-            target = meta.get('property') or rel.split('-')[0]
+            target = 'neutral' if prefix.startswith('neutral') else ('revert' if prefix.startswith('revert') else (meta.get('property') or rel.split('-')[0]))
             out = os.path.join(DEST, name)
             if confirmed:
                 os.makedirs(out, exist_ok=True)
-                for fn in ('patch.diff', 'demo.py'):
+                for fn in ('patch.diff', 'demo.py', 'equiv.py'):
                     if os.path.exists(os.path.join(d, fn)):
                         shutil.copy(os.path.join(d, fn), os.path.join(out, fn))
                 if e.get('rebased') and os.path.exists(os.path.join(d, 'patch.rebased.diff')):
@@ -47,8 +47,10 @@ def main():
                     shutil.copy(os.path.join(d, 'patch.rebased.diff'), os.path.join(out, 'patch.diff'))
                 meta_out = {
                     'property': target, 'summary': meta.get('summary', ''), 'needs': meta.get('needs', ''),
-                    'origin': 'written by a sub-agent that saw only the property text and its own worktree' if meta else
-                              'revert of one fix: commit / neutral rewrite written for the machinery self-test',
+                    'origin': ('behaviour-preserving refactoring written by a sub-agent (equiv.py = its old-versus-new comparison)' if prefix.startswith('neutral') and meta else
+                               'written by a sub-agent that saw only the property text and its own worktree' if meta else
+                               'revert of one fix: commit / neutral rewrite written for the machinery self-test'),
+                    'why_equivalent': meta.get('why_equivalent', '') if prefix.startswith('neutral') else None,
                     'confirmed': {'test_suite_with_change': e.get('tests'), 'demo_exit_without_change': e.get('demo_clean'),
                                   'demo_exit_with_change': e.get('demo_mutant'),
                                   'how': 'tools/evalmut.py: scratch worktree of /repo, git apply, pytest, demo with and without the change, '
@@ -67,7 +69,12 @@ def main():
                 '(`no-failing-input-found`).\n\n'
                 '| change | target | confirmed | caught with input by | broken obligation reported by | summary |\n|---|---|---|---|---|---|\n')
         for name, target, confirmed, inp, brk, other, summ in rows:
-            hit = 'TARGET HIT' if target in inp else ('target broken' if target in brk else ('neutral' if target.startswith('N') else 'TARGET MISSED'))
+            if target == 'neutral':
+                hit = 'silent' if not inp and not brk and not other else ('FALSE FAILING INPUT' if inp else 'obligation no longer checks (no-failing-input-found)')
+            elif target == 'revert':
+                hit = 'caught with input' if inp else 'MISSED'
+            else:
+                hit = 'TARGET HIT' if target in inp else ('target broken' if target in brk else 'TARGET MISSED')
             f.write('| %s | %s (%s) | %s | %s | %s | %s |\n' % (name, target, hit, 'yes' if confirmed else 'NO', ' '.join(inp) or '-',
                                                               ' '.join(brk) or '-', summ.replace('|', '/')[:160]))
     print('wrote %d rows' % len(rows))
